@@ -633,9 +633,14 @@ func main() {
 		reqs = append(reqs, stReq{Kind: "state", Seqs: sets[i:j]})
 	}
 	t0 := time.Now()
-	outs, err := pool.Map(reqs, deadline)
+	outs, deaths, err := pool.Map(reqs, deadline)
 	if err != nil {
 		evid.Fatalf("C30: %v", err)
+	}
+	for _, d := range deaths {
+		if f := chainkit.DeathFail(d); f != nil {
+			r.Violate("C30|state-tier|"+f.Sig, f.What, map[string]interface{}{"scenario": "state-tier", "request": d.Request})
+		}
 	}
 	var stTot stResp
 	stTot.Shapes = map[string]int{}
